@@ -29,6 +29,10 @@ CHECKS = {
    text="2-3 threads run real validate calls (shared pandas schema with coerce / frame dtype / regex columns, different schemas, polars DataFrame and LazyFrame, polars validate beside a user config_context, first use of a DataFrameModel, first use of the backend registry) under a scheduler that preempts only between two Python statements of pandera code: systematic single preemption in both directions, a grid of double preemptions and seeded random switching; every thread's outcome must equal its solo outcome bit-for-bit and config context, CONFIG and every schema fingerprint after join must equal those before. The evidence lists distinct executed interleavings and yield points.",
    note="Preemption points are a subset of real GIL switch points (no impossible interleaving); races inside a single pandas/polars call are not explored; 2-3 threads, frames <= 5 rows.",
    ref="4/C07"),
+ "C15": dict(cat="exploration", tech="program-level metamorphic monitor: schema and an accepted frame transformed in lock-step by the real methods; receiver fingerprint, untouched-attribute fingerprints, accept(op(S),op(D)), inverse laws",
+   text="Generated pandas and polars DataFrameSchemas with rich attributes are driven through programs of up to 5 transforming requests (add, remove, select, rename, update_column(s), set_index, reset_index, update_checks, set_checks) plus interleaved invalid requests; each request is mirrored on a real accepted frame. Monitors at every step: receiver fingerprint unchanged; every attribute not named by the request fingerprint-equal (incl. Index<->Column carry-over and MultiIndex options); accept(op(S), op(D)); a bad value in an untouched column stays rejected; the four inverse laws give a schema == and fingerprint-equal to S; invalid requests raise SchemaInitError/ValueError and return nothing.",
+   note="set_index/reset_index judged for pandas only (polars frames have no index); where reset_index inserts former levels is judged only through the mirror on ordered=True schemas (open finding); coerce folded into the level left by a dissolved MultiIndex(coerce=True) not judged; updates are neutral, relaxing or data-satisfying only. Trusted: pvm.fingerprint, pvm.harness, pandas/polars as frame libraries.",
+   ref="4/C15"),
  "C11": dict(cat="exploration", tech="reference-model oracle over row identities of the real validate(lazy=True) output; docs examples executed",
    text="Rows carry a hidden identity (unique int / string / MultiIndex labels; content+order on polars); after the real validate with drop_invalid_rows=True the surviving identities and values are compared with the rows on which the reference model finds every row-level constraint satisfied, in order; cases with a non-row violation must raise SchemaErrors (never return, never TypeError). The four examples of docs/source/drop_invalid_rows.md run as fixed cases.",
    note="Unique non-null index labels (documented limitation); exact coercion only (int/float/datetime retyping); SeriesSchema with a failing index schema not judged; trusts pvm/model.py.",
